@@ -38,7 +38,7 @@ LEVEL_TEXT = ("see lean/Ctrmml/Properties/C01.lean: rewrite soundness over Spec/
               "initialSubId + number of events < 32767); loop counts (repair of D2, repo 6f86090: apply_match folds at most max_loop_count = 255 repetitions, the rest stays for the next pass; "
               "the capped fold is the fold without remainder with k = 254, LoopWindow.cap): C01_fold_count_le_255 (every LOOP_END the loop branch inserts has a count in 2..255 and every other "
               "event of the new track is an old event, LOOP_START or LOOP_BREAK), C01_pass_counts / C01_optimize_counts_le_255 (a pass / a whole run keeps every loop count of the song in the "
-              "documented domain 0..255); depth (repair of D18, repo 905cc0c: find_match applies its stack test to the source phrase too): C01_fold_headroom / "
+              "documented domain 0..255); depth (repair of D18, repo 546f0ab: find_match applies its stack test to the source phrase too): C01_fold_headroom / "
               "C01_fold0_headroom (spec level: if the song validates with the period A0 A1 wrapped in one more loop, the folded song validates - one frame of headroom around the "
               "period is all a fold needs; exact-depth congruence Proofs/RewriteDepth), C01_fold_budget_covers_period (every event of [position, loopPosition), the part the break "
               "skips included, passed stack_depth < max_loop_stack), C01_sub_budget_covers_source (every event of the phrase a subroutine is made from passed stack_depth < "
